@@ -449,11 +449,12 @@ structure PairOnly (w w' : World) : Prop where
   facAddr : w'.facAddr = w.facAddr
   denoms : w'.denoms = w.denoms
   rawId : w'.rawId = w.rawId
+  badAddr : w'.badAddr = w.badAddr
 
-theorem PairOnly.refl (w : World) : PairOnly w w := ⟨rfl, rfl, rfl, rfl, rfl, rfl⟩
+theorem PairOnly.refl (w : World) : PairOnly w w := ⟨rfl, rfl, rfl, rfl, rfl, rfl, rfl⟩
 theorem PairOnly.trans {a b c : World} (h1 : PairOnly a b) (h2 : PairOnly b c) : PairOnly a c :=
   ⟨h2.bank.trans h1.bank, h2.tok.trans h1.tok, h2.registry.trans h1.registry, h2.facAddr.trans h1.facAddr,
-   h2.denoms.trans h1.denoms, h2.rawId.trans h1.rawId⟩
+   h2.denoms.trans h1.denoms, h2.rawId.trans h1.rawId, h2.badAddr.trans h1.badAddr⟩
 
 theorem pairUpdateDecimals_inv {w w' : World} {p s d da db : Nat}
     (h : pairUpdateDecimals w p s d da db = .ok w') :
@@ -475,7 +476,7 @@ theorem pairUpdateDecimals_inv {w w' : World} {p s d da db : Nat}
 theorem pairUpdateDecimals_pairOnly {w w' : World} {p s d da db : Nat}
     (h : pairUpdateDecimals w p s d da db = .ok w') : PairOnly w w' := by
   obtain ⟨P, _, _, rfl⟩ := pairUpdateDecimals_inv h
-  exact ⟨rfl, rfl, rfl, rfl, rfl, rfl⟩
+  exact ⟨rfl, rfl, rfl, rfl, rfl, rfl, rfl⟩
 
 theorem fanOutMsgs_pairOnly {d : Nat} : ∀ (l : List (Nat × Nat × Nat)) {w w' : World},
     facFanOutMsgs d w l = .ok w' → PairOnly w w'
@@ -773,7 +774,7 @@ theorem pairProvide_same {w w' : World} {p : Nat} {P : PairSt} {sender : Nat} {f
   split at h
   · cases h
   simp only [bind_ok_iff, pure_ok_iff, Prod.mk.injEq] at h
-  obtain ⟨share', _, w1, h1, w2, h2, w3, h3, w4, h4, rfl, _⟩ := h
+  obtain ⟨share', _, w1, h1, w2, h2, w3, h3, _, _, w4, h4, rfl, _⟩ := h
   have k1 : Same w w1 := by
     split at h1
     · exact (tokTransferFrom_same h1).1
@@ -883,10 +884,8 @@ theorem routerSwapOps_same {name : Asset → String} {w w' : World} {sender : Na
 
 theorem routerReceive_same {name : Asset → String} {w w' : World} {from_ : Nat} {hk : Hook}
     (h : routerReceive name w from_ hk = .ok w') : Same w w' := by
-  unfold routerReceive at h
-  split at h
-  · exact routerSwapOps_same h
-  · cases h
+  obtain ⟨_, _, _, rfl, _, _, h⟩ := routerReceive_ok h
+  exact routerSwapOps_same h
 
 theorem routerExec_same {name : Asset → String} {w w' : World} {sender : Nat} {funds : List (Nat × Nat)}
     {m : RouterMsg} (h : routerExec name w sender funds m = .ok w') : Same w w' := by
@@ -895,11 +894,17 @@ theorem routerExec_same {name : Asset → String} {w w' : World} {sender : Nat} 
   obtain ⟨w0, h0, h⟩ := h
   refine (attach_same h0).1.trans ?_
   cases m with
-  | swapOps ops mn tgt => exact routerSwapOps_same h
-  | swapOp o a tgt => exact routerHop_same h
+  | swapOps ops mn tgt =>
+    simp only [bind_ok_iff] at h
+    obtain ⟨_, _, h⟩ := h
+    exact routerSwapOps_same h
+  | swapOp o a tgt =>
+    simp only [bind_ok_iff] at h
+    obtain ⟨_, _, h⟩ := h
+    exact routerHop_same h
   | assertMin a prev mn rcv =>
     simp only [bind_ok_iff, pure_ok_iff] at h
-    obtain ⟨_, _, rfl⟩ := h
+    obtain ⟨_, _, _, _, rfl⟩ := h
     exact Same.refl _
   | receive from_ amount hk => exact routerReceive_same h
 
@@ -948,7 +953,7 @@ theorem pairProvide_toks {w w' : World} {p : Nat} {P : PairSt} {sender : Nat} {f
   split at h
   · cases h
   simp only [bind_ok_iff, pure_ok_iff, Prod.mk.injEq] at h
-  obtain ⟨share', _, w1, h1, w2, h2, w3, h3, w4, h4, rfl, _⟩ := h
+  obtain ⟨share', _, w1, h1, w2, h2, w3, h3, _, _, w4, h4, rfl, _⟩ := h
   have k1 : SameToks w w1 := by
     split at h1
     · exact tokTransferFrom_sameToks h1
@@ -1055,10 +1060,8 @@ theorem routerSwapOps_toks {name : Asset → String} {w w' : World} {sender : Na
 
 theorem routerReceive_toks {name : Asset → String} {w w' : World} {from_ : Nat} {hk : Hook}
     (h : routerReceive name w from_ hk = .ok w') : SameToks w w' := by
-  unfold routerReceive at h
-  split at h
-  · exact routerSwapOps_toks h
-  · cases h
+  obtain ⟨_, _, _, rfl, _, _, h⟩ := routerReceive_ok h
+  exact routerSwapOps_toks h
 
 theorem routerExec_toks {name : Asset → String} {w w' : World} {sender : Nat} {funds : List (Nat × Nat)}
     {m : RouterMsg} (h : routerExec name w sender funds m = .ok w') : SameToks w w' := by
@@ -1067,11 +1070,17 @@ theorem routerExec_toks {name : Asset → String} {w w' : World} {sender : Nat} 
   obtain ⟨w0, h0, h⟩ := h
   refine (sameToks_of_tok_eq (attach_same h0).2).trans ?_
   cases m with
-  | swapOps ops mn tgt => exact routerSwapOps_toks h
-  | swapOp o a tgt => exact routerHop_toks h
+  | swapOps ops mn tgt =>
+    simp only [bind_ok_iff] at h
+    obtain ⟨_, _, h⟩ := h
+    exact routerSwapOps_toks h
+  | swapOp o a tgt =>
+    simp only [bind_ok_iff] at h
+    obtain ⟨_, _, h⟩ := h
+    exact routerHop_toks h
   | assertMin a prev mn rcv =>
     simp only [bind_ok_iff, pure_ok_iff] at h
-    obtain ⟨_, _, rfl⟩ := h
+    obtain ⟨_, _, _, _, rfl⟩ := h
     exact SameToks.refl _
   | receive from_ amount hk => exact routerReceive_toks h
 
@@ -1209,6 +1218,8 @@ theorem live_exec_iff {name : Asset → String} {w w' : World} {op : Op} {out : 
       unfold facUpdateConfig at h2
       split at h2
       · cases h2
+      split at h2
+      · cases h2
       injection h2 with h2
       subst h2
       exact ⟨fun h => l0.mpr h, fun h => .inl (l0.mp h)⟩
@@ -1342,6 +1353,8 @@ theorem regOK_step' {name : Asset → String} {w w' : World} {op : Op} {out : Ou
       unfold facUpdateConfig at h2
       split at h2
       · cases h2
+      split at h2
+      · cases h2
       injection h2 with h2
       subst h2
       exact regOK_transfer (w := w0) rfl rfl rfl rfl (fun _ _ => rfl) (fun _ h => h) hr0
@@ -1379,5 +1392,139 @@ theorem create_lp_token {w w' : World} {s : Nat} {a0 a1 : Asset} {req : Requirem
     ?_, rfl, rfl, rfl, ?_⟩
   · simp
   · simp [assetDecimals]
+
+/-! ### address validity is a fact of the environment: no operation changes `badAddr` -/
+
+theorem facFanOut1_bad {denom decimals : Nat} {w w' : World} {msgs msgs' : List (Nat × Nat × Nat)}
+    {e : Bytes × Record} (h : facFanOut1 denom decimals (w, msgs) e = .ok (w', msgs')) :
+    w'.badAddr = w.badAddr := by
+  unfold facFanOut1 at h
+  dsimp only at h
+  split at h
+  · cases h
+  injection h with h
+  by_cases h0 : e.2.a0 = .native denom <;> by_cases h1 : e.2.a1 = .native denom <;>
+    simp only [h0, h1, if_true, if_false, Prod.mk.injEq] at h <;>
+    (obtain ⟨rfl, _⟩ := h; rfl)
+
+theorem facFanOut_fold_bad {denom decimals : Nat} : ∀ (l : List (Bytes × Record)) {acc acc' : World × List (Nat × Nat × Nat)},
+    l.foldlM (facFanOut1 denom decimals) acc = .ok acc' → acc'.1.badAddr = acc.1.badAddr
+  | [], acc, acc', h => by
+    simp only [List.foldlM_nil, pure_ok_iff] at h; subst h; rfl
+  | e :: l, (w, msgs), acc', h => by
+    simp only [List.foldlM_cons, bind_ok_iff] at h
+    obtain ⟨⟨w1, msgs1⟩, h1, h2⟩ := h
+    exact (facFanOut_fold_bad l h2).trans (facFanOut1_bad h1)
+
+theorem facAddDecimals_bad {w w' : World} {s d k : Nat} (h : facAddDecimals w s d k = .ok w') :
+    w'.badAddr = w.badAddr := by
+  unfold facAddDecimals at h
+  dsimp only at h
+  split at h
+  · cases h
+  split at h
+  · cases h
+  split at h
+  · simp only [bind_ok_iff] at h
+    obtain ⟨⟨w2, msgs⟩, h1, h2⟩ := h
+    exact (fanOutMsgs_pairOnly _ h2).badAddr.trans (facFanOut_fold_bad _ h1)
+  · simp only [pure_ok_iff] at h
+    subst h
+    rfl
+
+theorem facExec_bad {w w' : World} {s : Nat} {f : List (Nat × Nat)} {m : FacMsg}
+    (h : facExec w s f m = .ok w') : w'.badAddr = w.badAddr := by
+  unfold facExec at h
+  simp only [bind_ok_iff] at h
+  obtain ⟨w0, h0, h1⟩ := h
+  refine Eq.trans ?_ (attach_same h0).1.badAddr
+  cases m with
+  | updateConfig o tc pc =>
+    have h2 : facUpdateConfig w0 s o tc pc = .ok w' := h1
+    unfold facUpdateConfig at h2
+    split at h2
+    · cases h2
+    split at h2
+    · cases h2
+    injection h2 with h2
+    subst h2
+    rfl
+  | createPair a0 a1 req comm lpDec np nl =>
+    obtain ⟨_, _, _, d0, d1, _, _, _, rfl⟩ :=
+      facCreatePair_inv (show facCreatePair w0 s a0 a1 req comm lpDec np nl = .ok w' from h1)
+    rfl
+  | addDecimals d k => exact facAddDecimals_bad (show facAddDecimals w0 s d k = .ok w' from h1)
+  | migratePair p c =>
+    have h2 : facMigratePair w0 s p c = .ok w' := h1
+    unfold facMigratePair at h2
+    split at h2
+    · cases h2
+    split at h2
+    · cases h2
+    split at h2
+    · split at h2
+      · injection h2 with h2; subst h2; rfl
+      · cases h2
+    · cases h2
+
+/-- no operation changes which address strings are invalid -/
+theorem badAddr_exec {name : Asset → String} {w w' : World} {op : Op} {out : Out}
+    (h : exec name w op = .ok (w', out)) : w'.badAddr = w.badAddr := by
+  cases op with
+  | bankSend s d cs =>
+    simp only [exec, bind_ok_iff, pure_ok_iff, Prod.mk.injEq] at h
+    obtain ⟨w1, h1, rfl, _⟩ := h
+    exact (bankSend_same h1).1.badAddr
+  | tokTransfer t s d a =>
+    simp only [exec, bind_ok_iff, pure_ok_iff, Prod.mk.injEq] at h
+    obtain ⟨w1, h1, rfl, _⟩ := h
+    exact (tokTransfer_same h1).1.badAddr
+  | tokSend t s d a hk => exact (tokSend_same h).badAddr
+  | tokIncAllow t o s a =>
+    simp only [exec, bind_ok_iff, pure_ok_iff, Prod.mk.injEq] at h
+    obtain ⟨w1, h1, rfl, _⟩ := h
+    exact (tokIncAllow_same h1).1.badAddr
+  | tokBurn t s a =>
+    simp only [exec, bind_ok_iff, pure_ok_iff, Prod.mk.injEq] at h
+    obtain ⟨w1, h1, rfl, _⟩ := h
+    exact (tokBurn_same h1).1.badAddr
+  | tokTransferFrom t sp o d a =>
+    simp only [exec, bind_ok_iff, pure_ok_iff, Prod.mk.injEq] at h
+    obtain ⟨w1, h1, rfl, _⟩ := h
+    exact (tokTransferFrom_same h1).1.badAddr
+  | tokSendFrom t sp o d a hk => exact (tokSendFrom_same h).badAddr
+  | tokBurnFrom t sp o a =>
+    simp only [exec, bind_ok_iff, pure_ok_iff, Prod.mk.injEq] at h
+    obtain ⟨w1, h1, rfl, _⟩ := h
+    exact (tokBurnFrom_same h1).1.badAddr
+  | tokDecAllow t o sp a =>
+    simp only [exec, bind_ok_iff, pure_ok_iff, Prod.mk.injEq] at h
+    obtain ⟨w1, h1, rfl, _⟩ := h
+    exact (tokDecAllow_same h1).1.badAddr
+  | pair s p f m =>
+    have h' : pairExec w s p f m = .ok (w', out) := h
+    rcases pairExec_cases h' with hs | ⟨d, da, db, w0, rfl, hs0, hu⟩
+    · exact hs.badAddr
+    · exact (pairUpdateDecimals_pairOnly hu).badAddr.trans hs0.badAddr
+  | router s f m =>
+    simp only [exec, bind_ok_iff, pure_ok_iff, Prod.mk.injEq] at h
+    obtain ⟨w1, h1, rfl, _⟩ := h
+    exact (routerExec_same h1).badAddr
+  | factory s f m =>
+    simp only [exec, bind_ok_iff, pure_ok_iff, Prod.mk.injEq] at h
+    obtain ⟨w1, h1, rfl, _⟩ := h
+    exact facExec_bad h1
+
+theorem badAddr_step {name : Asset → String} (w : World) (op : Op) : (step name w op).badAddr = w.badAddr := by
+  unfold step
+  cases hE : exec name w op with
+  | error e => rfl
+  | ok r => obtain ⟨w', out⟩ := r; exact badAddr_exec hE
+
+theorem badAddr_run {name : Asset → String} : ∀ (ops : List Op) (w : World), (run name w ops).badAddr = w.badAddr
+  | [], _ => rfl
+  | op :: rest, w => by
+    show (run name (step name w op) rest).badAddr = _
+    exact (badAddr_run rest _).trans (badAddr_step w op)
 
 end Halo.RegOKP
